@@ -46,6 +46,28 @@ def main():
                 out[sweep.key(d["sha"], {}, d["rule"])] = d["what"][:120]
             for d in c05.history_suite(ctx).disagreements:
                 out[sweep.key(d["sha"], d["opts"], "history")] = d["what"][:120]
+        elif prop == "C07":
+            from props import c07
+            s = c07.surface_suite(ctx)
+            for d in s.disagreements:
+                for m in d["missing"]:
+                    out[sweep.key(d["sha"], {}, m)] = d["what"][:120]
+        elif prop == "C08":
+            from props import c08
+            s = c08.preserved_oracle(ctx)
+            for d in s.disagreements:
+                for m in d["missing"]:
+                    out[sweep.key(d["sha"], {}, m)] = d["what"][:120]
+        elif prop == "C11":
+            from props import c11
+            s = c11.stages_oracle(ctx)
+            for d in s.disagreements:
+                out[sweep.key(d["sha"], {}, d["stage"])] = d["what"][:120]
+        elif prop == "C06":
+            from props import c06
+            s = c06.hashseed_suite(ctx)
+            for d in s.disagreements:
+                out[d["sha"]] = d["what"][:120]
         elif prop == "C20":
             from props import c20
             s = c20.annotate_suite(ctx)
